@@ -238,6 +238,7 @@ func (ex *Exec) callBuiltinClosure(f *FuncV, args []Val, st *State) []Result {
 		parent := f.Data[1].(*CtxV)
 		w := *st.worlds[child.World]
 		st.worlds[parent.World] = &w
+		ex.recordMerge(child.World, parent.World)
 		return []Result{{st, nil, nil}}
 	}
 	if strings.HasPrefix(f.Builtin, "param:") {
